@@ -59,8 +59,10 @@ var tracked = []string{
 // the messages the components hand to each other over channels: once built
 // (composite literal) their fields may be assigned only by the component that
 // produces them, before the send; receivers only read.  The translator emits
-// every assignment / ++ / address-taking of such a field (and every overwrite
-// of a whole message) as a write site with synchronisation "Msg"; the Coq
+// every assignment / ++ / address-taking of such a field, every slice or map
+// field handed to package sort, to copy (as destination), append or delete,
+// and every overwrite of a whole message, as a write site with
+// synchronisation "Msg"; the Coq
 // check requires the enclosing function to run in a producer of the message.
 var msgStructs = map[string]bool{
 	"moodChange": true, "actChange": true, "sigEvent": true, "auditableValue": true,
@@ -399,6 +401,21 @@ climb:
 		written = true
 	case *ast.UnaryExpr:
 		written = p.Op == token.AND
+	case *ast.CallExpr:
+		// a slice / map field handed to something that writes through it:
+		// package sort (sort.Slice, sort.Sort, ...), copy's destination,
+		// append's first argument (may write in place), delete
+		for k, a := range p.Args {
+			if a != e {
+				continue
+			}
+			if path, _ := t.pkgCall(p); path == "sort" {
+				written = true
+			}
+			if b := t.isBuiltin(p); k == 0 && (b == "copy" || b == "append" || b == "delete") {
+				written = true
+			}
+		}
 	}
 	if written {
 		t.sites = append(t.sites, site{cell, "W", "Msg", fn, t.pos(expr.Pos())})
